@@ -207,6 +207,10 @@ pub mod vnet {
     }
     impl UnixListener {
         #[verifier::external_body] pub fn bind(addr: &str) -> (r: Result<UnixListener, IoError>) ensures r matches Err(e) ==> e.origin@ == 0 { unimplemented!() }
+        // (rule T-THREAD passes the address tacd was started with) `unix:PATH` listens on PATH: what follows the prefix, all of it
+        #[verifier::external_body] pub fn bind_path(addr: &str, Ghost(given): Ghost<Seq<char>>) -> (r: Result<UnixListener, IoError>)
+            requires addr@ == given.skip(5) //@C16.the_unix_socket_is_the_path_after_the_prefix,C17.the_unix_socket_is_the_path_after_the_prefix
+            ensures r matches Err(e) ==> e.origin@ == 0 { unimplemented!() }
         #[verifier::external_body] pub fn incoming(&self) -> (r: Vec<Result<Stream, IoError>>)
             ensures forall|i: int| 0 <= i < r@.len() ==> (#[trigger] r@[i] matches Err(e) ==> e.origin@ == 1) { unimplemented!() }
     }
